@@ -57,12 +57,15 @@ class C09(PropBase):
         return {"op": "init", "sessions": [{"name": "c", "role": "c"}], "observe_pending": True, "invalid_units": True,
                 "illegal_p": rng.choice([0.1, 0.3, 0.5]), "bad_p": rng.choice([0.05, 0.12, 0.3]),
                 "chunk": rng.choice(["whole", "whole", "mixed", "byte"]), "big": rng.choice([0.03, 0.12]), "style": policy.wire_style(rng),
-                "preroll": rng.choice([0] * 23 + [130, 258])}
+                "preroll": rng.choice([0] * 23 + [130, 258]), "bad_text": rng.choice([0.0, 0.0, 0.04]),
+                "long_preroll": 32770 if rng.random() < 0.002 else 0}
 
     def make(self, init):
         st = St(World(init))
         st.x = {"cells": set(), "bad_delivered": False, "max_out": 0, "ids": [], "refused_since_id": False,
                 "refused_search_bi": False, "done_ids": set()}
+        if init.get("long_preroll"):
+            self._long_preroll(st, int(init["long_preroll"]))
         # a long-lived session: N request/response pairs before the seeded history starts (ids then need 2+ octets
         # around 128 and 256), executed through the same step() so that every oracle applies
         for i in range(init.get("preroll", 0)):
@@ -77,12 +80,55 @@ class C09(PropBase):
             st.hit("long_session_preroll")
         return st
 
+    def _long_preroll(self, st, n):
+        """Tens of thousands of minimal operations, each answered at once, without the per-step bookkeeping of the world
+        (ids are still checked: positive, strictly increasing, carried by the emitted bytes, response accepted).  The very
+        first operation stays in progress for the whole session (a persistent search would)."""
+        se = st.w.s["c"]
+        real, model = se.real, se.model
+        last = 0
+        for i in range(n):
+            try:
+                mid = real.extended_request("1.1")
+                out = bytes(real.data_to_send())
+            except Exception as e:  # noqa: BLE001
+                raise Violation(P, "long-session-refused", "request number %d of a long session failed: %s: %s" % (i + 1, type(e).__name__, e))
+            if not isinstance(mid, int) or isinstance(mid, bool) or mid <= last:
+                raise Violation(P, "id-not-increasing", "request number %d of a long session returned id %r after id %r" % (i + 1, mid, last))
+            try:
+                lt = rfc4511.light(out)
+                okb = lt["id"] == mid
+            except ber.Malformed:
+                okb = False
+            if not okb:
+                raise Violation(P, "id-in-bytes-differs", "request number %d of a long session returned id %r but its bytes carry another" % (i + 1, mid))
+            last = mid
+            model.call_commit("extended_request", {"name": "1.1"}, True, ret=mid)
+            st.x["ids"] = [mid]
+            if i == 0:
+                continue
+            resp = rfc4511.enc_msg({"t": "ExtendedResponse", "id": mid, "controls": [], "name": None, "value": None,
+                                    "result": {"code": 0, "matched_dn": "", "diag": ""}})
+            try:
+                got = real.receive(resp)
+                okr = isinstance(got, list) and len(got) == 1
+                why = "returned %d messages" % len(got) if isinstance(got, list) else "returned %r" % type(got).__name__
+            except Exception as e:  # noqa: BLE001
+                okr, why = False, "raised %s: %s" % (type(e).__name__, e)
+            if not okr:
+                raise Violation(P, "in-progress-id-refused/ExtendedResponse", "the response to request number %d (id %r) of a long session %s" % (
+                    i + 1, mid, why))
+            model._retire(mid)
+            if len(model.retired) > 64:
+                del model.retired[:-32]
+        st.hit("very_long_session")
+
     def next_op(self, st, rng):
         w = st.w
         se = w.s["c"]
         model = se.model
         init = w.init
-        g = Gen(rng, big=init["big"])
+        g = Gen(rng, big=init["big"], bad_text=init.get("bad_text", 0.0))
         gb = Gen(rng, big=init["big"])  # the byzantine server's generator (known controls with odd values allowed)
         gb.odd_known = True
         gb.invalid_known = True
